@@ -374,6 +374,13 @@ pub struct Ctx {
     /// not compared, and an error outcome is accepted as well (the properties leave odd PCs open: both the
     /// manual's "bit 0 is ignored" and a rejection satisfy them; executing a *different* instruction does not)
     pub odd_pc: bool,
+    /// C20 in cross-form sequences: per-cycle costs come from the closed form of C19 evaluated on the settings
+    /// now in the bus-controller registers instead of from the implementation's own cost function, so that a
+    /// charge computed from stale settings (a guest instruction has just rewritten a register) is visible
+    pub closed_form_cost: bool,
+    /// C15: a step is executed by the real `Cpu::run()` (one loop iteration, then the run-loop hook ends the run)
+    /// instead of by fetch+exec, so that run()'s own error path sees every failing instruction
+    pub via_run: bool,
 }
 
 /// Built-in self-test of the comparison: perturb the reference for selected cases and require a mismatch.
@@ -418,6 +425,8 @@ impl Ctx {
             refq: Vec::new(),
             track_queue: false,
             odd_pc: false,
+            closed_form_cost: false,
+            via_run: false,
         }
     }
 
@@ -426,6 +435,20 @@ impl Ctx {
     }
 
     fn unit_cost(&self, kind: Cyc, addr: u32) -> Option<u32> {
+        if self.closed_form_cost {
+            let k = match kind {
+                Cyc::I => 'I',
+                Cyc::J => 'J',
+                Cyc::K => 'K',
+                Cyc::L => 'L',
+                Cyc::M => 'M',
+                Cyc::N => return Some(1),
+            };
+            // on-chip I/O register addresses are outside C19/C20 (documented TODO): fall back to the implementation
+            if !((0xfee000..=0xfee0ff).contains(&addr) || (0xffff20..=0xffffe9).contains(&addr)) {
+                return super::props::tables::closed_cost(&self.m.cpu.bus.io_registrs1[..], k, addr);
+            }
+        }
         let st = match kind {
             Cyc::I => StateType::I,
             Cyc::J => StateType::J,
@@ -519,7 +542,32 @@ impl Ctx {
         cpu.vh_set_ccr(c.ccr);
         let kind = c.kind;
         crate::cpu::verif_hooks::bus_write_log_enable(true);
+        let via_run = self.via_run;
+        let (c_er, c_pc, c_ccr) = (c.er, c.pc, c.ccr);
         let r = catch_unwind(AssertUnwindSafe(|| match kind {
+            Kind::Step if via_run => {
+                // run() loads PC from ER2 and programs the bus controller first: the hook puts the case's state back
+                // at the first loop iteration and ends the run at the second
+                let mut it = 0u32;
+                crate::cpu::verif_hooks::set_run_loop_hook(Some(Box::new(move |cpu: &mut crate::cpu::Cpu| {
+                    it += 1;
+                    if it == 1 {
+                        cpu.er = c_er;
+                        cpu.vh_set_pc(c_pc);
+                        cpu.vh_set_ccr(c_ccr);
+                        false
+                    } else {
+                        true
+                    }
+                })));
+                let r = cpu.run();
+                crate::cpu::verif_hooks::set_run_loop_hook(None);
+                match r {
+                    Ok(()) => Ok(0u8),
+                    Err(e) if format!("{:#}", e).contains(crate::cpu::verif_hooks::HORIZON_MESSAGE) => Ok(0u8),
+                    Err(e) => Err(e),
+                }
+            }
             Kind::Step => cpu.vh_step(),
             Kind::Irq(v) => {
                 cpu.vh_clear_pending_interrupts();
@@ -535,6 +583,23 @@ impl Ctx {
         }));
         crate::cpu::verif_hooks::bus_write_log_take(&mut self.wlog);
         crate::cpu::verif_hooks::bus_write_log_enable(false);
+        if via_run && kind == Kind::Step {
+            // run() lets the peripherals see the elapsed states: a timer started by this or an earlier case has
+            // counted (its registers are written directly, not through Bus::write) and may have raised requests.
+            // Cases stay independent: peripherals back to reset, timer registers back to the image, hook removed.
+            crate::cpu::verif_hooks::set_run_loop_hook(None);
+            let cpu = &mut self.m.cpu;
+            cpu.vh_clear_pending_interrupts();
+            cpu.vh_module_manager_restore(crate::modules::ModuleManager::new());
+            for a in (0xffff80u32..=0xffff99).filter(|a| sem::is_timer_reg(*a)) {
+                if !self.wlog.contains(&a) {
+                    let v = self.m.peek_shadow(a).unwrap_or(0);
+                    if let Some(s) = self.m.real_slot(a) {
+                        *s = v;
+                    }
+                }
+            }
+        }
         match r {
             Ok(Ok(s)) => Actual::Ok(s),
             Ok(Err(e)) => Actual::Err(format!("{:#}", e).chars().take(200).collect()),
@@ -560,6 +625,10 @@ impl Ctx {
             };
         }
         if self.cycles_only {
+            if self.closed_form_cost && ro.writes.as_slice().iter().any(|w| (0xfee020..=0xfee026).contains(&w.addr)) {
+                // the instruction rewrites the settings its own charge depends on: which of the two applies is not fixed
+                return None;
+            }
             let defined = ro.class == Class::Ok || (ro.class == Class::Any && ro.cyc_valid);
             if defined {
                 match act {
